@@ -147,6 +147,8 @@ func (d aDef) query() string {
 		return fmt.Sprintf("sport:%d", d.N)
 	case "D":
 		return fmt.Sprintf(`cdata:"MARK%d;"`, d.N)
+	case "C":
+		return `cdata:"CONV:"`
 	case "L":
 		return fmt.Sprintf(`ltime:"%s:"`, aT0.Add(time.Duration(d.N)*10*time.Second-5*time.Second).Format("2006-01-02 150405"))
 	case "I", "M":
